@@ -42,3 +42,8 @@ From VProofs Require Import RatingProofs.
 (* no algorithm name shown in a report contains a line feed, carriage return or escape: a peer cannot forge the delimiter line or a `(gen) target:` line of another block *)
 Theorem c08_shown_names_no_control : forall s, ~ In (ascii_of_nat 10) (chars (display s)) /\ ~ In (ascii_of_nat 13) (chars (display s)) /\ ~ In (ascii_of_nat 27) (chars (display s)).
 Proof. exact display_no_newline. Qed.
+(* the highest-rank theorem holds of the fold of the comparison as it reads in the current source *)
+Theorem c08_src_final_status : forall results : list (Z * string),
+  (forall r, In r results -> In (fst r) ranked_return_codes) ->
+  final_status results = fold_left (fun ret r => src_rank_update ret (fst r)) results exit_GOOD.
+Proof. exact src_final_status. Qed.
